@@ -16,6 +16,17 @@ pub fn schedules(n: usize) -> Vec<Vec<Piece>> {
         // one multi-block call (also for n = 0 and n = 1)
         v.push(vec![Piece { n, kind: k, single: false }]);
     }
+    // empty multi-block calls before, between and after
+    for k in [Kind::InPlace, Kind::B2b] {
+        let mut s = vec![Piece { n: 0, kind: k, single: false }];
+        if n >= 1 {
+            s.push(Piece { n: 1, kind: k, single: false });
+            s.push(Piece { n: 0, kind: k, single: false });
+            s.push(Piece { n: n - 1, kind: k, single: false });
+        }
+        s.push(Piece { n: 0, kind: k, single: false });
+        v.push(s);
+    }
     // every two-way split, same kind and mixed kinds
     for i in 1..n {
         for (k1, k2) in [(Kind::InPlace, Kind::InPlace), (Kind::B2b, Kind::B2b), (Kind::InOut, Kind::InPlace), (Kind::InPlace, Kind::B2b)] {
